@@ -195,11 +195,12 @@ PROPERTIES["C12"] = {
     "modes": [
         {"mode": "maps", "harness": "c12", "runs": {"quick": 1400, "thorough": 40000}, "stall_s": 300, "share": 0.5},
         {"mode": "growth", "harness": "c12", "runs": {"quick": 160, "thorough": 5000}, "stall_s": 400, "share": 0.2},
+        {"mode": "flexbig", "harness": "c12", "runs": {"quick": 0, "thorough": 4}, "stall_s": 1200, "share": 0.05},
         {"mode": "handler", "harness": "c12", "runs": {"quick": 3000, "thorough": 100000}, "share": 0.15},
         {"mode": "nospace", "harness": "c12", "runs": {"quick": 600, "thorough": 10000}, "share": 0.15},
     ],
     "expected_probes": ["mremap moved the mapping", "mapping placed at a fresh, never reused address", "dense mmap/file vector grew beyond its first 1 Mi elements", "dumped as array and reloaded", "dumped as list and reloaded", "full disk reported as std::system_error", "sparse or dense mmap/file vector grew beyond 2^20 entries while filling"],
     "components_real": ["all registered index map types (dense/sparse x mem/mmap/file, sparse_mem_map, flex_mem) through MapFactory", "osmium::MemoryMapping / mmap_vector_base / mmap_vector_file on real temporary files and real pages", "NodeLocationsForWays", "reliable_write for dumps"],
     "components_stubbed": ["placement of mmap()/mremap() results (always-move policy via MAP_FIXED_NOREPLACE/MREMAP_FIXED on a never reused address range)", "fstatvfs free-space report", "dump target fd (in-memory file with short writes/EINTR); the dumped bytes are copied to a real file for reloading"],
-    "assumptions": ["single-threaded: no scheduler decisions are involved", "restricted claim: histories have up to ~600 ids (a few with ids up to 3*2^20 so that the 1 Mi-element growth steps of the dense mmap/file vectors happen); the 2^24-entry FlexMem threshold is crossed only through hook H3 (flexmem_min_dense_entries), never at its shipped value; mode growth fills the sparse and dense mmap/file vectors with 2^20+1 .. 2^20+1.2*10^6 entries (stride/offset/order from the tape) and checks sampled probes against a formula model", "after a failed growth (full disk) only the exception type is checked"],
+    "assumptions": ["single-threaded: no scheduler decisions are involved", "restricted claim: histories have up to ~600 ids (a few with ids up to 3*2^20 so that the 1 Mi-element growth steps of the dense mmap/file vectors happen); the 2^24-entry FlexMem threshold is crossed through hook H3 (flexmem_min_dense_entries) in the quick tier and at its shipped value only in the thorough tier (mode flexbig, 4 runs); mode growth fills the sparse and dense mmap/file vectors with 2^20+1 .. 2^20+1.2*10^6 entries (stride/offset/order from the tape) and checks sampled probes against a formula model", "after a failed growth (full disk) only the exception type is checked"],
 }
